@@ -46,6 +46,18 @@ pub fn load(vals: Vec<Vec<u8>>) {
     COVERED.with(|c| c.borrow_mut().clear());
 }
 
+/// Natively: discard `n` draws (those a Kani-only stub made at this point of the execution).
+pub fn skip(n: usize) {
+    #[cfg(not(kani))]
+    {
+        let mut i = 0;
+        while i < n {
+            QUEUE.with(|q| q.borrow_mut().pop_front());
+            i += 1;
+        }
+    }
+}
+
 #[cfg(not(kani))]
 pub fn remaining() -> usize {
     QUEUE.with(|q| q.borrow().len())
